@@ -25,6 +25,9 @@ GEN_SPEC = {"imports": ["From God Require Import C09.GenEnv."], "items": [
     {"kind": "calls", "file": "lib/load/adaptiveshedder.go", "func": "promise.Fail", "as": "fail_calls"},
     {"kind": "calls", "file": "lib/load/adaptiveshedder.go", "func": "adaptiveShedder.systemOverloaded", "as": "overloaded_calls"},
     {"kind": "calls", "file": "lib/load/adaptiveshedder.go", "func": "adaptiveShedder.stillHot", "as": "stillhot_calls"},
+    {"kind": "const", "file": "lib/stat/usage.go", "name": "beta"},
+    {"kind": "const", "file": "lib/stat/usage.go", "name": "cpuRefreshInterval"},
+    {"kind": "calls", "file": "lib/stat/usage.go", "func": "init", "as": "usage_init_calls"},
     {"kind": "calls", "file": "api/handler/sheddinghandler.go", "func": "SheddingHandler", "as": "shedhandler_calls"},
     {"kind": "calls", "file": "rpc/internal/serverinterceptors/sheddinginterceptor.go", "func": "UnarySheddingInterceptor",
      "as": "shedint_calls"},
@@ -40,9 +43,11 @@ RULE = ("60% window histories: size 1-50 (mostly 1-6), interval in {1,7,100,250m
         "and the 1 s cool-off boundaries; 3% malformed (size<1, interval 0, buckets 0, window<buckets, double completion); "
         "12% integration call lists (5-40 requests through UnarySheddingInterceptor inside UnaryCrashInterceptor, or through "
         "SheddingHandler with RecoverHandler inside / without it, over a recording shedder: 15% scripted drops; outcomes ok, "
-        "status.Error(0..16), context.DeadlineExceeded, wrapped deadline, panic(string|error|DeadlineExceeded); shapes "
+        "status.Error(0..16), context.DeadlineExceeded, wrapped deadline, panic(string|error|DeadlineExceeded), request context already expired / cancelled on arrival (handler gives up with ctx.Err() or answers all the same); shapes "
         "WriteHeader(c), bare Write, nothing, WriteHeader+Write+Flush+Write, panic, Write-then-panic); "
-        "4 (thorough 40) shedding-statistics streams over 2-6 scripted reporting ticks (SheddingStat.loop on a driver channel, the "
+        "2 CPU-smoothing probes (lib/stat: smoothed value set to 0 / 600 / 1000, all cores kept busy for one refresh interval, value read after one refresh of the package's own loop); 4 (thorough 40) configured-geometry traces (window/buckets in {500ms/5, 1s/10, 300ms/3, 600ms/6}: fast requests, a gap longer "
+        "than the window, slower requests over a standing in-flight load, overload readings with in-flight between the stale and the "
+        "configured capacity), 2 dead-context RPC integration lists; 4 (thorough 40) shedding-statistics streams over 2-6 scripted reporting ticks (SheddingStat.loop on a driver channel, the "
         "logged line captured through a logx writer); non-trivial = window: a Reduce after an Add and an advance >= interval; shedder: at least one Pass and one drop "
         "or overload reading; distinct = distinct canonical case JSON")
 TRUSTED = ["float64 arithmetic of the Go build (amd64, no FMA contraction) = IEEE-754 binary64 = Coq PrimFloat; "
@@ -140,7 +145,7 @@ def gen_integration(rng):
     calls = []
     for _ in range(rng.randint(5, 40)):
         drop = 1 if rng.random() < 0.15 else 0
-        k = rng.randrange(7)
+        k = rng.randrange(7) if http else rng.choice([0, 1, 2, 3, 4, 5, 6, 7, 7, 8, 8, 9])   # 7-9: context dead on arrival
         if http:
             arg = rng.choice(HTTP_STATUS) if k in (0, 3) else 0
         else:
@@ -169,8 +174,47 @@ def gen_stat(rng):
     return {"kind": "t", "ops": ops}
 
 
+def gen_geometry(rng):
+    """NewAdaptiveShedder(WithWindow, WithBuckets) with fewer than 50 buckets: fast requests, a gap longer than the configured
+    window (shorter than the default one), slower requests over a standing in-flight load, then overload readings while
+    in-flight lies between the capacity a stale latency window would give (1) and the configured window's capacity"""
+    window, buckets = rng.choice([(500 * MS, 5), (SEC, 10), (300 * MS, 3), (600 * MS, 6)])
+    bd = window // buckets
+    ops = []
+
+    def allow(cpu):
+        ops.append([0, cpu])
+        return len(ops) - 1
+    for _ in range(3):
+        ids = [allow(100) for _ in range(rng.randint(3, 6))]
+        ops.append([3, MS])
+        ops.extend([1, k] for k in ids)
+        ops.append([3, bd])
+    ops.append([3, window + rng.choice([bd, 2 * bd, 3 * bd])])
+    base = [allow(100) for _ in range(rng.randint(25, 35))]
+    lat = rng.choice([2 * bd, 3 * bd])
+    for _ in range(3):
+        ids = [allow(100) for _ in range(rng.randint(15, 25))]
+        ops.append([3, lat])
+        ops.extend([1, k] for k in ids)
+    ops.append([3, bd])
+    for _ in range(rng.randint(4, 8)):
+        allow(rng.choice([900, 950, 1000]))
+    for k in base[:rng.randint(0, 10)]:
+        ops.append([rng.choice([1, 2]), k])
+    return {"kind": "s", "window": window, "buckets": buckets, "thr": 900, "ops": ops}
+
+
+def dead_context_case(rng):
+    """RPC shedding interceptor: a run of requests whose context is already expired / cancelled on arrival, then live ones"""
+    calls = [[0, rng.choice([7, 8, 9]), 0] for _ in range(rng.randint(8, 30))] + [[0, 0, 0]] * 3
+    return {"kind": "i", "http": False, "calls": calls}
+
+
 def generate(rng, tier, n):
-    cases = [gen_stat(rng) for _ in range(4 if tier != "thorough" else 40)]
+    cases = [gen_stat(rng) for _ in range(4 if tier != "thorough" else 40)] + [dead_context_case(rng), dead_context_case(rng)] + \
+        [{"kind": "u", "start": 0, "burn": 1}, {"kind": "u", "start": rng.choice([1000, 600, 0]), "burn": rng.randrange(2)}] + \
+        [gen_geometry(rng) for _ in range(4 if tier != "thorough" else 40)]
     for _ in range(n - len(cases)):
         if rng.random() < 0.12:
             cases.append(gen_integration(rng))
@@ -191,7 +235,7 @@ def drive(cases, tier):
     obs = [None] * len(cases)
     for kind, pkg, run in (("w", "./lib/collection", "^TestVerifDriverRW$"), ("s", "./lib/load", "^TestVerifDriver$"),
                            ("ir", "./rpc/internal/serverinterceptors", "^TestVerifDriverC09$"),
-                           ("ih", "./api/handler", "^TestVerifDriverC09$"), ("t", "./lib/load", "^TestVerifDriverStat$")):
+                           ("ih", "./api/handler", "^TestVerifDriverC09$"), ("t", "./lib/load", "^TestVerifDriverStat$"), ("u", "./lib/stat", "^TestVerifDriverC09$")):
         idx = [i for i, c in enumerate(cases)
                if c["kind"] == kind or (c["kind"] == "i" and kind == ("ih" if c["http"] else "ir"))]
         if not idx:
@@ -210,6 +254,8 @@ def _bucket(b):
 
 
 def encode(case, obs):
+    if case["kind"] == "u":
+        return "UCase %s %s" % (cZ(case["start"]), cZ(obs.get("after", -99)))
     if case["kind"] == "t":
         return "TCase %s %s" % (clist([cnat(o) for o in case["ops"]]), clist([clist([cZ(v) for v in r]) for r in obs.get("ticks", [])]))
     if case["kind"] == "i":
@@ -249,6 +295,8 @@ def encode(case, obs):
 
 
 def nontrivial(case, obs):
+    if case["kind"] == "u":
+        return obs.get("after", 0) > 0
     if case["kind"] == "t":
         return len(obs.get("ticks", [])) >= 2 and any(r[0] > 0 for r in obs.get("ticks", []))
     if case["kind"] == "i":
@@ -274,6 +322,8 @@ def bucket(case, obs):
     out = ["kind:" + case["kind"]]
     if case["kind"] == "t":
         return out + ["stat:ticks=%d" % len(obs.get("ticks", []))]
+    if case["kind"] == "u":
+        return out + ["cpu:start=%d" % case["start"], "cpu:after<=100" if obs.get("after", 0) <= 100 else "cpu:after>100"]
     if case["kind"] == "i":
         out[0] = "kind:i-" + ("http" + ("+recover" if case.get("guard") else "-bare") if case["http"] else "rpc")
         for c in case["calls"]:
@@ -309,6 +359,10 @@ def bucket(case, obs):
 
 
 def explain(case, obs):
+    if case["kind"] == "u":
+        return ("CPU smoothing (lib/stat/usage.go): starting from the given smoothed value, one (at most two) refreshes with a real hot "
+                "sample moved it by more than 5% of a sample per refresh -- from exactly 0 one hot sample must leave it far below the "
+                "shedder's threshold (c09_cpu_one_hot_sample)")
     if case["kind"] == "t":
         return ("shedding statistics: a reporting tick did not log exactly the total / pass / drop increments of its own interval "
                 "(counted twice across ticks, or lost) (C09.Exec.t_spec)")
